@@ -16,52 +16,80 @@ structure PrimsOk (P : Prims) : Prop where
 /-- success of detached decryption ⇔ the supplied tag is exactly the Poly1305 value of the encoding -/
 theorem decrypt_ok_iff_tag (P : Prims) (hP : PrimsOk P) (f : Flavor) (w : Bool) (c mac ad n k : Bytes) (hm : mac.length = 16) :
     (decryptDetached P f w c mac ad n k).rc = 0 ↔ mac = P.mac ((P.ks k n 0 64).take 32) (macData f ad c) := by
-  sorry
+  rw [decryptDetached_rc P hP.mac_len f w c mac ad n k hm]
+  split <;> simp [*]
 
 /-- any change of the tag (any non-zero XOR mask) is rejected -/
 theorem tag_change_rejected (P : Prims) (hP : PrimsOk P) (f : Flavor) (w : Bool) (m ad n k mac' : Bytes)
     (hl : mac'.length = 16) (hne : mac' ≠ (encryptDetached P f m ad n k).2) :
     (decryptDetached P f w (encryptDetached P f m ad n k).1 mac' ad n k).rc = -1 := by
-  sorry
+  rw [decryptDetached_rc P hP.mac_len f w _ mac' ad n k hl]
+  exact if_neg hne
 
 /-- inputs shorter than the tag are always rejected, touching nothing -/
 theorem short_rejected (P : Prims) (f : Flavor) (w : Bool) (cm ad n k : Bytes) (h : cm.length < 16) :
     decrypt P f w cm ad n k = ⟨-1, 0, none⟩ ∧ xDecrypt P w cm ad n k = ⟨-1, 0, none⟩ ∧
     secretboxOpenEasy P w cm n k = ⟨-1, 0, none⟩ := by
-  sorry
+  simp [decrypt, xDecrypt, secretboxOpenEasy, h]
 
 /-- on failure: reported length 0 and the output buffer is untouched or filled with zeros of the
     ciphertext length — a filler independent of key and data — never plaintext -/
 theorem failure_output (P : Prims) (f : Flavor) (w : Bool) (c mac ad n k : Bytes)
     (h : (decryptDetached P f w c mac ad n k).rc ≠ 0) :
     (decryptDetached P f w c mac ad n k).mlen = 0 ∧
-    ((decryptDetached P f w c mac ad n k).mbuf = none ∨ (decryptDetached P f w c mac ad n k).mbuf = some (zeros c.length)) := by
-  sorry
+    ((decryptDetached P f w c mac ad n k).mbuf = none ∨ (decryptDetached P f w c mac ad n k).mbuf = some (zeros c.length)) :=
+  decryptDetached_failure P f w c mac ad n k h
 
 /-- secretbox verifies before decrypting: on failure nothing is written at all -/
 theorem secretbox_failure_output (P : Prims) (w : Bool) (c mac n k : Bytes)
     (h : (secretboxOpenDetached P w c mac n k).rc ≠ 0) :
-    secretboxOpenDetached P w c mac n k = ⟨-1, 0, none⟩ := by
-  sorry
+    secretboxOpenDetached P w c mac n k = ⟨-1, 0, none⟩ :=
+  secretboxOpenDetached_failure P w c mac n k h
 
 /-- the return code is 0 or -1, and verify-only mode (m = NULL) never writes -/
 theorem rc_values (P : Prims) (hP : PrimsOk P) (f : Flavor) (w : Bool) (c mac ad n k : Bytes) (hm : mac.length = 16) :
     ((decryptDetached P f w c mac ad n k).rc = 0 ∨ (decryptDetached P f w c mac ad n k).rc = -1) ∧
     (w = false → (decryptDetached P f w c mac ad n k).mbuf = none) := by
-  sorry
+  refine ⟨?_, fun hw => by rw [hw]; exact decryptDetached_verify_only P f c mac ad n k⟩
+  rw [decryptDetached_rc P hP.mac_len f w c mac ad n k hm]
+  split
+  · exact Or.inl rfl
+  · exact Or.inr rfl
 
 /-- the MAC-data encodings are injective in (ad, c): an accepted modification of associated data or
     ciphertext is a genuine Poly1305 forgery, never an encoding ambiguity -/
 theorem macData_injective (f : Flavor) (ad ad' c c' : Bytes)
     (hl : ad.length < 2 ^ 64 ∧ ad'.length < 2 ^ 64 ∧ c.length < 2 ^ 64 ∧ c'.length < 2 ^ 64)
     (h : macData f ad c = macData f ad' c') : ad = ad' ∧ c = c' := by
-  sorry
+  cases f
+  · exact macData_orig_inj ad ad' c c' hl.2.2.1 hl.2.2.2 h
+  · exact macData_ietf_inj ad ad' c c' hl.1 hl.2.1 hl.2.2.1 hl.2.2.2 h
 
 /-- PARTIAL (cryptographic remainder): a modified ciphertext / ad / nonce / key is rejected provided
     the Poly1305 value of the modified input differs from the supplied tag -/
 theorem modification_rejected_partial (P : Prims) (hP : PrimsOk P) (f : Flavor) (w : Bool) (c mac ad n k : Bytes)
     (hm : mac.length = 16) (hdiff : P.mac ((P.ks k n 0 64).take 32) (macData f ad c) ≠ mac) :
     (decryptDetached P f w c mac ad n k).rc = -1 := by
-  sorry
+  rw [decryptDetached_rc P hP.mac_len f w c mac ad n k hm]
+  exact if_neg (fun e => hdiff e.symm)
+
+/-! non-vacuity: a concrete `Prims` meeting `PrimsOk`, and evaluated instances -/
+
+theorem toyPrims_ok : PrimsOk toyPrims := ⟨toyPrims_ks_len, toyPrims_mac_len⟩
+
+/-- the genuine tag is accepted … -/
+example : decryptDetached toyPrims .ietf true [199, 207, 215]
+    [224, 92, 165, 105, 111, 48, 34, 200, 5, 243, 201, 178, 139, 244, 149, 220] [9] [0,1] [5] = ⟨0, 3, some [1,2,3]⟩ := by decide
+/-- … one flipped tag bit is rejected and the output buffer is zero-filled … -/
+example : decryptDetached toyPrims .ietf true [199, 207, 215]
+    [225, 92, 165, 105, 111, 48, 34, 200, 5, 243, 201, 178, 139, 244, 149, 220] [9] [0,1] [5] = ⟨-1, 0, some [0,0,0]⟩ := by decide
+/-- … a modified ciphertext or associated data is rejected (hypothesis of `modification_rejected_partial` holds here) -/
+example : (decryptDetached toyPrims .ietf false [199, 207, 214]
+    [224, 92, 165, 105, 111, 48, 34, 200, 5, 243, 201, 178, 139, 244, 149, 220] [9] [0,1] [5]).rc = -1 ∧
+    (decryptDetached toyPrims .orig true [199, 207, 215]
+    [168, 68, 247, 246, 167, 245, 68, 103, 163, 234, 68, 254, 28, 250, 144, 153] [8] [0,1] [5]) = ⟨-1, 0, some [0,0,0]⟩ := by decide
+example : secretboxOpenDetached toyPrims true [23, 31, 39]
+    [152, 173, 108, 75, 82, 89, 96, 103, 110, 117, 124, 131, 138, 145, 152, 159]
+    [0,1,2,3,4,5,6,7,8,9,10,11,12,13,14,15,16,17,18,19,20,21,22,23] [5,6] = ⟨-1, 0, none⟩ := by decide
 
 end Sodium.C02
